@@ -218,13 +218,13 @@ def run_job(job):
     if part == "sec1":
         C = smallcurve.curve(cv)
         sh, nsh = job["shard"]
-        for x in range(0, C.p + 2):
+        for x in range(0, 2 * C.p + 2):       # every residue twice: unreduced coordinates x+p, y+p included
             if x % nsh != sh:
                 continue
             for prefix in range(0, 8):
                 b33 = bytes([prefix]) + x.to_bytes(32, "big")
                 bufs = [b33, b33[:32], b33 + b"\x00"]
-                for y in range(0, C.p + 2):
+                for y in range(0, 2 * C.p + 2):
                     b65 = b33 + y.to_bytes(32, "big")
                     bufs += [b65]
                     if y in (0, 1, C.p - 1) or C.on_curve((x, y)) if x < C.p and y < C.p else y == 0:
@@ -275,7 +275,19 @@ def run_job(job):
                 acc.check("sec1", {"buf": b.hex()}, chk_sec1)
             acc.ob("sec1_x_ge_p")
             acc.ob("sec1_off_curve")
-        acc.sample({"secp_sec1_keys": len(keys)})
+        # unreduced coordinates that still fit in 32 bytes: curve points with tiny x (x + p < 2^256) and tiny y
+        i32 = lambda v: v.to_bytes(32, "big")
+        small = [x for x in range(1, 400) if S.lift_x(x) is not None][:6]
+        for x in small:
+            for odd in (False, True):
+                y = S.lift_x(x, odd=odd)
+                for b in (bytes([2 + odd]) + i32(x), bytes([2 + odd]) + i32(x + p), b"\x04" + i32(x) + i32(y), b"\x04" + i32(x + p) + i32(y)):
+                    acc.evaluations += 1
+                    if sec1_strict(S, b) is None:
+                        acc.nontrivial += 1
+                        acc.ob("sec1_x_ge_p")
+                    acc.check("sec1", {"buf": b.hex()}, chk_sec1)
+        acc.sample({"secp_sec1_keys": len(keys), "tiny_x_points": small})
     elif part == "wif-rt":
         sh, nsh = job["shard"]
         n = S.n
